@@ -307,4 +307,25 @@ theorem matchBearer_issued (tok : List Nat) (hne : tok ≠ []) (hc : ∀ c ∈ t
     simp only [h5, if_true, h3, h1, h2]
     simp
 
+/-! ### master / slave histories -/
+
+theorem hrun_slave (emp : Key) (ops : List HOp) : ∀ h : Hub, (hrun emp h ops).slave = lastSlaveKey h.slave ops := by
+  induction ops with
+  | nil => intro h; rfl
+  | cons op rest ih =>
+    intro h
+    have : hrun emp h (op :: rest) = hrun emp (hstep emp h op) rest := rfl
+    rw [this, ih]
+    cases op <;> rfl
+
+theorem hrun_dev (emp : Key) (ops : List HOp) : ∀ h : Hub, (hrun emp h ops).dev = run emp h.dev (devOps ops) := by
+  induction ops with
+  | nil => intro h; rfl
+  | cons op rest ih =>
+    intro h
+    have : hrun emp h (op :: rest) = hrun emp (hstep emp h op) rest := rfl
+    rw [this, ih]
+    cases op <;> rfl
+
+
 end QtVerif.Auth
